@@ -40,6 +40,11 @@ func (c c17Case) tree() *hx.Node {
 		// PRF data wherever this case reads (and a little around it), for every candidate sector size
 		n.Spans = append(n.Spans, [2]int64{sigOff - 64, sigOff + 16*2448})
 		for j, r := range c.Reqs {
+			if (r.Op == "READ_FILE" || r.Op == "READ_CRIT") && c.Which[j] == i {
+				// byte reads on the same handle (they move the file between two sector reads)
+				n.Spans = append(n.Spans, [2]int64{int64(r.Off) - 4096, int64(r.Off) + int64(r.N) + 2*2448})
+				continue
+			}
 			if r.Op != "READ_CD" || c.Which[j] != i {
 				continue
 			}
@@ -91,10 +96,38 @@ func genC17(t *rapid.T) c17Case {
 		at[i] = i
 	}
 	n := rapid.IntRange(2, 24).Draw(t, "nreq")
+	lastEnd := -1 // sector behind the last sector read of the open image (-1: none since it was opened)
 	for i := 0; i < n; i++ {
 		l := fmt.Sprintf("r%d", i)
-		k := rapid.IntRange(0, 12).Draw(t, l+"-k")
+		k := rapid.IntRange(0, 14).Draw(t, l+"-k")
+		if k != 13 && k != 14 && !(k >= 3 && k <= 11) {
+			lastEnd = -1
+		}
 		switch {
+		case (k == 13 || k == 14) && cur >= 0:
+			// a byte read on the same handle: it leaves the file somewhere else than the sector reads did
+			im := c.Images[cur]
+			var off int64
+			switch rapid.IntRange(0, 3).Draw(t, l+"-where") {
+			case 0:
+				off = rapid.Int64Range(0, max(im.Size-1, 0)).Draw(t, l+"-off")
+			case 1:
+				off = int64(24) + int64(max(lastEnd, 0))*int64(im.Sector) + int64(rapid.IntRange(-2, 2).Draw(t, l+"-d"))*int64(im.Sector)
+			case 2:
+				off = int64(24) + int64(rapid.IntRange(0, 40).Draw(t, l+"-sec"))*int64(im.Sector)
+			default:
+				off = int64(rapid.IntRange(0, 1<<20).Draw(t, l+"-low"))
+			}
+			if off < 0 {
+				off = 0
+			}
+			nb := rapid.SampledFrom([]int{1, 24, 2047, 2048, 2049, 4096, 70000}).Draw(t, l+"-n")
+			op := "READ_FILE"
+			if k == 14 && off+int64(nb) <= im.Size {
+				op = "READ_CRIT"
+			}
+			c.Reqs = append(c.Reqs, hx.Req{Op: op, N: uint32(nb), Off: uint64(off)})
+			c.Which = append(c.Which, cur)
 		case k == 12 && nimg > 1 && cur >= 0:
 			// the image is replaced under its name (the files exchange their names), then opened again under the same
 			// name - mostly without a CLOSEFILE in between
@@ -130,7 +163,13 @@ func genC17(t *rapid.T) c17Case {
 			im := c.Images[cur]
 			total := int((im.Size - 24) / int64(im.Sector))
 			var start, count int
-			switch rapid.IntRange(0, 11).Draw(t, l+"-geom") {
+			geom := rapid.IntRange(0, 11).Draw(t, l+"-geom")
+			if lastEnd >= 0 && rapid.IntRange(0, 2).Draw(t, l+"-cont") > 0 {
+				geom = 12 // continue where the previous sector read ended
+			}
+			switch geom {
+			case 12:
+				start, count = lastEnd, rapid.IntRange(1, 6).Draw(t, l+"-c")
 			case 10, 11:
 				// start sectors whose byte offset needs more than 32 bits: inside a > 4 GiB image real data, otherwise far behind EOF
 				wrap := int((1<<32)/int64(im.Sector)) + 1
@@ -156,6 +195,10 @@ func genC17(t *rapid.T) c17Case {
 			}
 			c.Reqs = append(c.Reqs, hx.Req{Op: "READ_CD", Start: uint32(start), Count: uint32(count)})
 			c.Which = append(c.Which, cur)
+			lastEnd = -1
+			if int64(24)+int64(start+count)*int64(im.Sector) <= im.Size && start+count < 1<<30 {
+				lastEnd = start + count
+			}
 		}
 	}
 	return c
@@ -190,6 +233,21 @@ func runC17(c c17Case, st *hx.Stats) error {
 	}
 	if len(c.Images) > 1 {
 		st.Label("several images of different sector size on one connection")
+	}
+	lastCD, between := -1, false
+	for j, r := range c.Reqs {
+		switch {
+		case r.Op == "READ_CD" && c.Which[j] >= 0:
+			if lastCD >= 0 && between && int(r.Start) == lastCD {
+				st.Label("sector read continuing the previous one after a byte read on the same handle")
+				st.NT(fmt.Sprintf("cont|%d|%d|%d", c.Images[c.Which[j]].Sector, r.Start, r.Count))
+			}
+			lastCD, between = int(r.Start+r.Count), false
+		case r.Op == "READ_FILE" || r.Op == "READ_CRIT":
+			between = true
+		default:
+			lastCD = -1
+		}
 	}
 	for _, r := range c.Reqs {
 		if r.Op == "LOCAL_SWAP" {
